@@ -76,7 +76,24 @@ def run_case(ctx):
         t.limit = None          # (a level limit on the readers could hide the difference)
         t.opts["limit"] = None
         far = src.flag("neg.far_origin", 3)
-        m2, kind = mutate_mesh(src, t.m1)
+        if src.flag("neg.far_index", 8):
+            # a long, deeply refined domain: cell indices of the order of 5e5, where comparing index ranges
+            # with a relative tolerance no longer tells neighbouring boxes apart
+            f2 = list(t.m2.fields)
+            t.m1 = world.gen_scale_world(src, "longdomain", tag="nf")
+            t.m2 = t.m1.copy_meta()
+            t.m2.fields = [f for f in f2 if f not in t.m1.fields] or ["zeta"]
+            t.v1 = t.v2 = None
+            t.opts.update(vars1=None, vars2=None)
+            far = False
+            m2, kind = t.m1.copy_meta(), "box-moved"
+            lv = t.m1.nlev - 1
+            lo, hi = m2.boxes[lv][2]
+            sh = src.choice("nf.shift", [4, 1, 2])
+            m2.boxes[lv][2] = ((lo[0] + sh,) + tuple(lo[1:]), (hi[0] + sh,) + tuple(hi[1:]))
+            ctx.probe("negative_far_index")
+        else:
+            m2, kind = mutate_mesh(src, t.m1)
         if far and m2 is not None:
             # a domain far from the coordinate origin relative to its cell size: physical box bounds of
             # different boxes agree to many digits, index ranges do not
